@@ -209,9 +209,24 @@ def mutate(r, lines, nops):
     lines = list(lines)
     applied = []
     for _ in range(nops):
-        op = r.choice(['ins', 'ins', 'ins', 'del', 'dup'])
+        op = r.choice(['ins', 'ins', 'ins', 'del', 'dup', 'rep'])
         if not lines and op != 'ins':
             op = 'ins'
+        if op == 'rep':
+            # deletion + insertion at the same place: a heading / trailer is replaced by an
+            # irregular spelling of the same kind, so the irregular line is the ONLY defect nearby
+            i = r.randrange(len(lines))
+            c = line_class(lines[i])
+            if c.startswith('heading'):
+                pool = [k for k in JUNK_CLASSES if k.startswith('heading') or k.startswith('old3')]
+            elif c.startswith('trailer'):
+                pool = [k for k in JUNK_CLASSES if k.startswith('trailer') or k == 'bare-trailer']
+            else:
+                pool = JUNK_CLASSES
+            j = r.choice(JUNK[r.choice(pool)])
+            applied.append('rep:%s>%s' % (c, JUNK_CLASS_OF[j]))
+            lines[i] = j
+            continue
         if op == 'ins':
             k = r.random()
             if k < 0.18:
